@@ -90,8 +90,17 @@ func (m *Migrator) MigrateFiles(patterns []string, outputPath string) error {
 			for _, imp := range file.Imports {
 				if pn := pkg.TypesInfo.PkgNameOf(imp); imp.Name == nil && pn != nil {
 					path := strings.Trim(imp.Path.Value, "\"")
-					delete(sourceImports, lastPathElement(path))
+					// the guess made from the path goes, unless the name now belongs to another import
+					if last := lastPathElement(path); sourceImports[last] == path {
+						delete(sourceImports, last)
+					}
 					sourceImports[pn.Name()] = path
+				}
+			}
+			// a name written in the file is never a guess: it wins over the last element of another path
+			for _, imp := range file.Imports {
+				if imp.Name != nil && imp.Name.Name != "." && imp.Name.Name != "_" {
+					sourceImports[imp.Name.Name] = strings.Trim(imp.Path.Value, "\"")
 				}
 			}
 
